@@ -97,7 +97,20 @@ func buildMenu() []spec.Batch {
 		rejected,        // 6 rejected by the field validator
 		tm[4],           // 7 composite field, overlapping field names
 	}
-	return append(m, vecBuildMenu()...)
+	// last item (index 8, or 10 under the vectors tag): more documents than one doc-value
+	// chunk holds; only used by the 'growth' histories
+	return append(append(m, vecBuildMenu()...), growBatch())
+}
+
+// growBatch: 1030 small documents with a doc-value field (two doc-value chunks).
+func growBatch() spec.Batch {
+	var b spec.Batch
+	for d := 0; d < 1030; d++ {
+		b.Docs = append(b.Docs, spec.Doc{ID: fmt.Sprintf("g%04d", d), Fields: []spec.Field{
+			{Name: "a", Len: 1, DV: true, Toks: []spec.Tok{{Term: fmt.Sprintf("w%d", d%5), Freq: 1}}},
+		}})
+	}
+	return b
 }
 
 func installValidator() func() {
@@ -298,7 +311,7 @@ func init() {
 	run.Register(&run.Def{
 		ID:          "C10",
 		Level:       "model_checking",
-		Rule:        "histories and schedules of real builds sharing the pooled builder memory: a batch menu of 8 items (empty; one small document whose text fields carry the names that the thesaurus and the vector field have in other items, plus a thesaurus whose only term has no synonym; many fields / terms / doc values / locations / arrays and a 500-byte stored value; few fields, many documents; synonyms with two thesauri; synonyms with one thesaurus; a batch rejected by the field validator; composite field with overlapping field names; under the vectors tag also a vector batch and a two-vector-field batch). (a) EVERY sequence over the menu of length <= 3 (quick) / 4 (thorough), run in one process: under the controlled scheduler with a deterministic sync.Pool (Get returns the most recently put builder = maximal reuse; the alternatives 'another pooled builder' and 'a fresh one' are explored as environment deviations, bound 1-2), with the pool empty or pre-seeded with 1-2 used builders left by concurrent builds (histories run without preemptions; goroutines spawned by the code run to completion at the spawn point); and with the real sync.Pool (GC disabled). (b) 2 goroutines building concurrently: every pair of the menu, pool pre-seeded with 0/1/2 used builders, interleavings at pool operations up to 4 preemptions (each build has 2 pool operations, so this covers all interleavings of 2 builds; 2 preemptions in quick when the pool is pre-seeded with 2 builders); 3 goroutines: every triple of a 5-item sub-menu, empty pool, preemption bound 2; results checked after the join; plus a free-running -race pass. Oracle: every build's complete dump equals the reference of its own batch (= what a fresh process would build), and the bytes it would persist carry a footer and CRC-32 that match them and decode, by the independent v16 decoder, to the same content (no section address of an earlier build in them); the bytes of the EMPTY batch are the same wherever it occurs in a history (scheduler flavours, where the order of a segment's section list is pinned); the rejected batch fails. Non-trivial = history or schedule with >= 2 builds.",
+		Rule:        "histories and schedules of real builds sharing the pooled builder memory: a batch menu of 8 items (empty; one small document whose text fields carry the names that the thesaurus and the vector field have in other items, plus a thesaurus whose only term has no synonym; many fields / terms / doc values / locations / arrays and a 500-byte stored value; few fields, many documents; synonyms with two thesauri; synonyms with one thesaurus; a batch rejected by the field validator; composite field with overlapping field names; under the vectors tag also a vector batch and a two-vector-field batch; and a batch of 1030 small documents with a doc-value field, used by the 'growth' histories: every sequence of length 2-3 over {small, 12 documents, 1030 documents} that contains it). (a) EVERY sequence over the menu of length <= 3 (quick) / 4 (thorough), run in one process: under the controlled scheduler with a deterministic sync.Pool (Get returns the most recently put builder = maximal reuse; the alternatives 'another pooled builder' and 'a fresh one' are explored as environment deviations, bound 1-2), with the pool empty or pre-seeded with 1-2 used builders left by concurrent builds (histories run without preemptions; goroutines spawned by the code run to completion at the spawn point); and with the real sync.Pool (GC disabled). (b) 2 goroutines building concurrently: every pair of the menu, pool pre-seeded with 0/1/2 used builders, interleavings at pool operations up to 4 preemptions (each build has 2 pool operations, so this covers all interleavings of 2 builds; 2 preemptions in quick when the pool is pre-seeded with 2 builders); 3 goroutines: every triple of a 5-item sub-menu, empty pool, preemption bound 2; results checked after the join; plus a free-running -race pass. Oracle: every build's complete dump equals the reference of its own batch (= what a fresh process would build), and the bytes it would persist carry a footer and CRC-32 that match them and decode, by the independent v16 decoder, to the same content (no section address of an earlier build in them); the bytes of the EMPTY batch are the same wherever it occurs in a history (scheduler flavours, where the order of a segment's section list is pinned); the rejected batch fails. Non-trivial = history or schedule with >= 2 builds.",
 		Assumptions: append([]string{"the validator hook (exported variable ValidateDocFields) is set by the harness for the whole run"}, batchAssumptions...),
 		Bounds:      map[string]string{"quick": "sequences <= 3 x preseed {0,2} (scheduler) and <= 3 (real pool); all concurrent pairs, triples of a 5-item sub-menu; race pass", "thorough": "sequences <= 4 x preseed {0,1,2}; same concurrent space"},
 		Flavours:    func(string) []string { return []string{"inst", "instvec", "plain", "race"} },
@@ -339,6 +352,19 @@ func init() {
 						}
 					})
 				}
+				if run.Flavour == "inst" {
+					// growth histories: a batch of at most one doc-value chunk, then one of 1030 documents (and back)
+					for l := 2; l <= 3; l++ {
+						enum.ProductOf(l, []int{1, 3, n}, func(v []int) {
+							for _, x := range v {
+								if x == n {
+									emit(BuildCase{Kind: "hist", Seq: v, Preseed: 0, Bound: 0})
+									return
+								}
+							}
+						})
+					}
+				}
 				for _, p := range []int{0, 1, 2} {
 					for i := 0; i < n; i++ {
 						for j := i; j < n; j++ {
@@ -368,6 +394,16 @@ func init() {
 			case "plain":
 				for l := 1; l <= maxLen; l++ {
 					enum.Product(l, n, func(v []int) { emit(BuildCase{Kind: "hist", Seq: v}) })
+				}
+				for l := 2; l <= 3; l++ {
+					enum.ProductOf(l, []int{1, 3, n}, func(v []int) {
+						for _, x := range v {
+							if x == n {
+								emit(BuildCase{Kind: "hist", Seq: v})
+								return
+							}
+						}
+					})
 				}
 			default: // race
 				for i := 0; i < n; i++ {
